@@ -225,6 +225,22 @@ func mayReturnNilAt(f *ssa.Function, i int) bool {
 	return false
 }
 
+// nilOnlyWithError: wherever f returns nil as result i, its error result is provably non-nil (the usual (value, error)
+// contract), so a caller behind the `err == nil` edge of the call holds a non-nil pointer.
+func nilOnlyWithError(f *ssa.Function, i int) bool {
+	res := f.Signature.Results()
+	if res.Len() < 2 || !flow.IsErrorType(res.At(res.Len()-1).Type()) {
+		return false
+	}
+	for _, ret := range flow.Returns(f) {
+		rs := flow.RetResults(ret)
+		if i < len(rs) && flow.IsNilConst(rs[i]) && !flow.KnownNonNilError(rs[len(rs)-1], ret.Block()) {
+			return false
+		}
+	}
+	return true
+}
+
 // checkNilDeref: a pointer result of a call whose callee can return nil must not be
 // dereferenced unless a dominating `!= nil` guard holds.
 func checkNilDeref(e *Env, p *load.Program, fns []*ssa.Function) {
@@ -252,10 +268,13 @@ func checkNilDeref(e *Env, p *load.Program, fns []*ssa.Function) {
 				if _, isPtr := sig.Results().At(i).Type().Underlying().(*types.Pointer); !isPtr {
 					continue
 				}
-				may := false
+				may, withErr := false, true
 				for _, g := range callees {
 					if g.Pkg != nil && g.Pkg.Pkg.Path() == load.PkgDisasm && mayReturnNilAt(g, i) {
 						may = true
+						if !nilOnlyWithError(g, i) {
+							withErr = false
+						}
 					}
 				}
 				if !may {
@@ -294,6 +313,15 @@ func checkNilDeref(e *Env, p *load.Program, fns []*ssa.Function) {
 						}
 						if (bo.Op == token.NEQ && cd.Pol) || (bo.Op == token.EQL && !cd.Pol) {
 							guarded = true
+						}
+					}
+					if !guarded && withErr {
+						// nil only together with an error, and this use lies behind the checked success of the call
+						if errv := flow.ErrResult(call); errv != nil {
+							if in, ok := ref.(ssa.Instruction); ok {
+								nn, known := flow.ErrKnownAt(errv, in)
+								guarded = known && !nn
+							}
 						}
 					}
 					r.Check(guarded, "E6.nilderef", load.FuncName(fn)+"/"+calleeName(call)+fmt.Sprintf("#%d", i), p.Pos(ref.Pos()),
@@ -762,6 +790,35 @@ func checkWindow(e *Env, p *load.Program) {
 		r.Unknown("E3.window", "parser.Parse", "", "not found")
 		return
 	}
+	// the scan loop is in Parse itself, or in the one function of the package that Parse hands the opened file to
+	entry := fn
+	if len(callsTo(fn, "bufio", "Scanner.Text")) == 0 {
+		var loopFns []*ssa.Function
+		var via *ssa.Call
+		for _, c := range flow.Calls(fn) {
+			call, ok := c.(*ssa.Call)
+			if !ok {
+				continue
+			}
+			if g := flow.Callee(call); g != nil && g.Pkg != nil && g.Pkg.Pkg.Path() == load.PkgDisasm && len(g.Blocks) > 0 && len(callsTo(g, "bufio", "Scanner.Text")) > 0 {
+				loopFns = append(loopFns, g)
+				via = call
+			}
+		}
+		if len(loopFns) != 1 {
+			r.Unknown("E3.window", "parser.Parse/scan-loop", p.Pos(fn.Pos()), fmt.Sprintf("the loop over the scanned lines was not found in Parse or in exactly one function it calls (%d candidates)", len(loopFns)))
+			return
+		}
+		fn = loopFns[0]
+		// Parse returns what the loop function returned, or nothing
+		for _, ret := range flow.Returns(entry) {
+			rs := flow.RetResults(ret)
+			if flow.IsNilConst(rs[0]) {
+				continue
+			}
+			r.Check(rs[0] == flow.ResultN(via, 0), "E3.appendonly", "parser.Parse/returns-loop-result", p.Pos(ret.Pos()), "Parse returns the result of the scan loop unmodified", "Parse returns something other than the result of the scan loop")
+		}
+	}
 	res := origin.NewResolver()
 	// the marker test: strings.HasPrefix(line, "TEXT") where line = Scanner.Text(), inline or in a helper of the package
 	// whose boolean result is true exactly when its argument has the prefix
@@ -1034,7 +1091,7 @@ func checkWindow(e *Env, p *load.Program) {
 		"the result slice is modified other than by append(result, x)")
 	for _, ret := range flow.Returns(fn) {
 		rs := flow.RetResults(ret)
-		if flow.IsNilConst(rs[len(rs)-1]) {
+		if flow.IsNilConst(rs[len(rs)-1]) || !flow.IsNilConst(rs[0]) {
 			r.Check(rs[0] == ssa.Value(phiR), "E3.appendonly", "parser.Parse/success-return", p.Pos(ret.Pos()), "the success return returns the accumulated result unmodified", "the success return does not return the accumulated result")
 		}
 	}
